@@ -171,7 +171,9 @@ def run(ctx):
                 "byzantine evidence, two-day time jumps, Frankenstein change of the staking options) plus directed histories (duplicate key, "
                 "all unstake, stake-then-unstake, early freeze, freeze by missed votes or guilty verdict -> wait past the release time -> RELEASE -> "
                 "8+ quiet blocks, with a twin replica restarted after the release; a validator leaving the election by unstake / verdict / "
-                "out-staking while every block ends with a transaction refused by Validate); a third of all blocks of all histories end "
+                "out-staking while every block ends with a transaction refused by Validate; a validator whose node is down (absent in "
+                "LastCommitInfo) leaving the election by each of three routes - frozen for missed votes, unstaked below the minimum, out-staked - "
+                "followed by 10+ quiet blocks); a third of all blocks of all histories end "
                 "with a Validate-refused transaction (bad signature, fee below minimum, stake of more than owned); distinct = distinct (table, options, malicious, last-active, purge) inputs; "
                 "validator-set cases = random sets and change lists against the real tendermint ValidatorSet",
         "traces_validated_against_impl": len(cases), "histories": shards * n,
@@ -198,6 +200,9 @@ def run(ctx):
         "blocks_ending_with_validate_refused_tx": hist(c["last_refused"] for c in cases if c.get("last_refused")),
         "blocks_ending_with_validate_refused_tx_and_purge": sum(1 for c in cases if c.get("last_refused") and any(u["v"] == 0 for u in c["ups"])),
         "blocks_ending_with_validate_refused_tx_and_election_change": sum(1 for c in cases if c.get("last_refused") and c["quiet"] == 1 and c["height"] > 2),
+        "blocks_with_absent_signers": sum(1 for c in cases if c.get("absent")),
+        "blocks_with_absent_signer_outside_the_election": sum(1 for c in cases if any(a not in [u["k"] for u in c["ups"] if u["v"] > 0] for a in (c.get("absent") or []))),
+        "convergence_checked_blocks_with_absent_signer": sum(1 for c in cases if c["quiet"] >= 5 and c["tm_ok"] and c.get("absent")),
         "releases_executed": sum(len(c.get("released") or []) for c in cases),
         "released_validators_re_elected": released_reelected(cases),
         "freezes_by_missed_votes_or_verdict_blocks": sum(1 for c in cases if c["mal"]),
